@@ -40,7 +40,17 @@ def c15(tier):
                  "ruleguard engine's evaluation of GoVersion filters is tied behaviourally (fires/does not fire per version), not modelled"])
 
 
-CHECKS = {"C06": c06, "C15": c15, "C16": c16}
+def c19(tier):
+    vlib.standard(
+        "C19", tier, "c19", ["Properties_C19.v", "Proofs_Init.v"],
+        assume=[
+            "a configuration is abstracted to the outcome of each fallible step (flag parsing, package loading, version parsing, selection, constructors); which concrete flag values are invalid is decided by the real code and observed by the tie",
+            "what go/packages hands over for broken packages is runtime behaviour: only the oracle (real binaries on broken packages) covers it",
+        ],
+        trusted=["analyzer verif hooks (VerifResetGlobal) and Analyzer.Run driven in-process with a hand-built analysis.Pass"])
+
+
+CHECKS = {"C06": c06, "C15": c15, "C16": c16, "C19": c19}
 
 
 def run(prop, tier):
